@@ -79,6 +79,12 @@ Proof.
   - intros [H1 [[x y] [E H]]]. cbn in E. subst x. exists (a, y). split; [reflexivity|]. apply in_bdel. auto.
 Qed.
 
+Lemma filter_all_id : forall {A} (f : A -> bool) l, (forall x, In x l -> f x = true) -> filter f l = l.
+Proof.
+  intros A f l. induction l as [|a r IH]; intros H; [reflexivity|]. cbn [filter].
+  rewrite (H a (or_introl eq_refl)). f_equal. apply IH. intros x Hx. apply H. right. exact Hx.
+Qed.
+
 Lemma nodup_bdel : forall k l, keys_nodup l -> keys_nodup (bdel k l).
 Proof.
   intros k l. unfold keys_nodup. induction l as [|[g w] r IH]; intros H; [constructor|].
@@ -288,7 +294,7 @@ Section DirProofs.
     destruct (key_needs_index hidx d cs g w Hwf Hin) as [i Hi]. apply nth_some_lt in Hi. rewrite (Hlen k g). exact Hi.
   Qed.
 
-  Lemma swap_toodeep : forall ix d k nv cs, wf d (Node cs) -> skipn d (hidx k) = ix ->
+  Lemma swap_toodeep : forall ix d k nv (cs : children), wf d (Node cs) -> skipn d (hidx k) = ix ->
     (d < llen (hidx k))%nat ->
     (forall g w, In (g, w) (walk (Node cs)) -> firstn d (hidx g) = firstn d (hidx k)) ->
     swap hidx ix d k nv cs = STooDeep ->
@@ -326,7 +332,7 @@ Section DirProofs.
       + destruct nv; discriminate.
   Qed.
 
-  Lemma find_not_toodeep : forall ix d k cs, wf d (Node cs) -> skipn d (hidx k) = ix ->
+  Lemma find_not_toodeep : forall ix d k (cs : children), wf d (Node cs) -> skipn d (hidx k) = ix ->
     (d < llen (hidx k))%nat -> find ix k cs <> FTooDeep.
   Proof.
     induction ix as [|i ix IH]; intros d k cs Hwf Hix Hd.
@@ -418,7 +424,7 @@ Section DirProofs.
     destruct (bget k l) as [w|] eqn:E.
     - split; assumption.
     - assert (Hbd : bdel k l = l).
-      { unfold bdel. apply forallb_filter_id. apply forallb_forall. intros [a b] Hin. cbn [fst].
+      { unfold bdel. apply filter_all_id. intros [a b] Hin. cbn [fst].
         apply negb_true_iff. apply name_eqb_neq. intros ->. apply (bget_none_notin k l E). eapply in_keys_l. exact Hin. }
       rewrite (same_length l m Hl Hm Hs).
       destruct ((0 <? ml) && (ml <? Z.of_nat (llen m) + 1)) eqn:Ecap.
@@ -468,7 +474,8 @@ Section DirProofs.
           - intros [H|H]; [inversion H; left; auto|]. right. split; [|exact H]. intros ->. apply Hk. eapply in_keys_l. exact H. }
         assert (Hnd' : NoDup (map fst (walk (Node cs')) ++ map fst r)).
         { cbn [map fst] in Hnd. eapply Permutation_NoDup; [|exact Hnd].
-          etransitivity; [symmetry; apply Permutation_middle|]. apply Permutation_app_tail.
+          transitivity ((k :: map fst (walk (Node cs))) ++ map fst r); [symmetry; apply Permutation_middle|].
+          apply Permutation_app_tail.
           apply NoDup_Permutation.
           - constructor; [exact Hk|apply (walk_nodup cs Hwf)].
           - apply (walk_nodup cs' Hwf').
@@ -492,4 +499,303 @@ Section DirProofs.
         * apply in_app_iff. right. left. reflexivity.
         * apply in_app_iff. left. exact Hg.
   Qed.
+
+  Lemma to_basic_ok : forall es l ml, NoDup (map fst l ++ map fst es) ->
+    (ml <= 0 \/ Z.of_nat (llen l + llen es) <= ml) ->
+    exists l', to_basic ml es l = inl l' /\ keys_nodup l' /\ (forall x, In x l' <-> In x l \/ In x es).
+  Proof.
+    induction es as [|[k v] es IH]; intros l ml Hnd Hcap.
+    - exists l. cbn [to_basic]. cbn [map] in Hnd. rewrite app_nil_r in Hnd.
+      split; [reflexivity|]. split; [exact Hnd|]. intros x. cbn [In]. tauto.
+    - cbn [to_basic]. unfold basic_add.
+      assert (Hk : ~ In k (map fst l)).
+      { cbn [map fst] in Hnd. apply NoDup_remove_2 in Hnd. intros H. apply Hnd. apply in_app_iff. left. exact H. }
+      destruct (bget k l) as [w|] eqn:E.
+      { exfalso. apply Hk. eapply in_keys_l. apply bget_some_in. exact E. }
+      assert (Hc : (0 <? ml) && (ml <? Z.of_nat (llen l) + 1) = false).
+      { cbn [llen] in Hcap. destruct (0 <? ml) eqn:E1; [|reflexivity]. destruct (ml <? Z.of_nat (llen l) + 1) eqn:E2; [|reflexivity].
+        apply Z.ltb_lt in E1. apply Z.ltb_lt in E2. lia. }
+      rewrite Hc.
+      destruct (IH (l ++ [(k, v)]) ml) as [l' [H1 [H2 H3]]].
+      + rewrite map_app. cbn [map fst]. rewrite <- app_assoc. exact Hnd.
+      + rewrite app_length. cbn [llen] in *. lia.
+      + exists l'. split; [exact H1|]. split; [exact H2|]. intros x. rewrite H3, in_app_iff. cbn [In]. tauto.
+  Qed.
+
+  (* ---------------- Node() and loading it back ---------------- *)
+  Definition keys_nonempty (t : trie) : Prop := forall g w, In (g, w) (walk t) -> g <> EmptyString.
+
+  Lemma zip_children_ok : forall pad (f : Z * trie -> pnode) (cs : children),
+    (forall p, In p cs -> from_node pad (f p) = Some (snd p)) ->
+    zip_children (map fst cs) (map (from_node pad) (map f cs)) = Some cs.
+  Proof.
+    intros pad f cs. induction cs as [|[i u] r IH]; intros H; [reflexivity|].
+    cbn [map fst zip_children]. rewrite (H (i, u) (or_introl eq_refl)). cbn [snd].
+    rewrite IH; [reflexivity|]. intros p Hp. apply H. right. exact Hp.
+  Qed.
+
+  Lemma from_to_node : forall pad (t : trie) nm,
+    (match t with Leaf _ _ => String.length nm = pad | Node _ => True end) ->
+    keys_nonempty t -> from_node pad (to_node pad nm t) = Some t.
+  Proof.
+    intros pad. induction t as [k v|cs IHcs] using trie_ind'; intros nm Hnm Hne.
+    - cbn [to_node from_node]. rewrite slen_app, Hnm.
+      assert (Hk : k <> EmptyString) by (apply (Hne k v); left; reflexivity).
+      destruct k as [|ch k]; [congruence|]. cbn [String.length].
+      destruct (pad + S (String.length k) <=? pad)%nat eqn:E; [apply Nat.leb_le in E; lia|].
+      rewrite <- Hnm. rewrite drop_app. reflexivity.
+    - cbn [to_node from_node].
+      rewrite (zip_children_ok pad (fun p => to_node pad (hexpad pad (fst p)) (snd p)) cs); [reflexivity|].
+      intros [i u] Hin. cbn [fst snd]. rewrite Forall_forall in IHcs. apply (IHcs (i, u) Hin).
+      + destruct u; [apply hexpad_length|exact I].
+      + intros g w Hg. apply (Hne g w). apply in_walk_node. exists i, u. split; assumption.
+  Qed.
+
+  (* ---------------- one step of the directory against one step of the map ---------------- *)
+  Variable hamt0 : bool.
+  Definition capped : bool := (negb (c_dynamic c) && negb hamt0) || negb (c_enabled c).
+  Definition kind_ok (d : dir) : Prop := c_dynamic c = false -> is_hamt d = hamt0.
+  Definition mne (m : fmap) : Prop := forall g w, In (g, w) m -> g <> EmptyString.
+  Definition op_ok (o : op) : Prop := match o with OAdd k _ _ => k <> EmptyString | _ => True end.
+
+  Definition good (d : dir) (m : fmap) : Prop := Rel d m /\ keys_nodup m /\ mne m /\ kind_ok d.
+
+  Lemma mne_mput : forall k v m, k <> EmptyString -> mne m -> mne (mput k v m).
+  Proof.
+    intros k v m Hk Hm g w Hin. apply mput_in in Hin. destruct Hin as [[-> _]|[_ Hin]]; [exact Hk|]. exact (Hm g w Hin).
+  Qed.
+  Lemma mne_mdel : forall k m, mne m -> mne (mdel k m).
+  Proof. intros k m Hm g w Hin. unfold mdel in Hin. apply in_bdel in Hin. exact (Hm g w (proj2 Hin)). Qed.
+  Lemma mdel_nodup : forall k m, keys_nodup m -> keys_nodup (mdel k m).
+  Proof. intros. unfold mdel. apply nodup_bdel. assumption. Qed.
+
+  Lemma present_iff : forall k cs m, wf 0 (Node cs) -> keys_nodup m -> same (walk (Node cs)) m ->
+    present hidx k cs = match mget k m with Some _ => true | None => false end.
+  Proof.
+    intros k cs m Hwf Hm Hs. unfold present, mget.
+    pose proof (find_spec hidx (hidx k) 0 k cs Hwf eq_refl) as Hf.
+    destruct (find (hidx k) k cs) as [v| |].
+    - rewrite (bget_in k m v Hm (proj1 (Hs _) Hf)). reflexivity.
+    - destruct (bget k m) as [w|] eqn:E; [|reflexivity]. exfalso. apply (Hf w). apply Hs. apply bget_some_in. exact E.
+    - destruct (bget k m) as [w|] eqn:E; [|reflexivity]. exfalso. apply (Hf w). apply Hs. apply bget_some_in. exact E.
+  Qed.
+
+  Lemma count_nil : count [] = 0.
+  Proof. reflexivity. Qed.
+
+  Lemma find_eq_spec : forall (x : option Z) (m : fmap),
+    match x, x with
+    | None, None => Some m
+    | Some a, Some b => if a =? b then Some m else None
+    | _, _ => None
+    end = Some m.
+  Proof. intros [a|] m; [rewrite Z.eqb_refl|]; reflexivity. Qed.
+
+  (** needsToSwitchToBasicDir = true bounds the number of entries by maxLinks *)
+  Lemma to_basic_decision_bound : forall o adding k cs tl, to_basic_decision c hidx o adding k cs tl = true ->
+    c_enabled c = true /\
+    (c_maxlinks c <= 0 \/
+     tl + (if adding then 1 else 0) - (if present hidx k cs then 1 else 0) <= c_maxlinks c).
+  Proof.
+    intros o adding k cs tl H. unfold to_basic_decision in H.
+    destruct (c_enabled c); [|discriminate]. split; [reflexivity|]. cbn [negb] in H.
+    set (nt := tl + (if adding then 1 else 0) - (if present hidx k cs then 1 else 0)) in *.
+    assert (Hcan : negb ((0 <? c_maxlinks c) && (c_maxlinks c <? nt)) = true).
+    { destruct (c_nosize c).
+      - apply andb_true_iff in H. destruct H as [H _]. apply andb_true_iff in H. exact (proj1 H).
+      - apply andb_true_iff in H. exact (proj2 H). }
+    apply negb_true_iff in Hcan. destruct (0 <? c_maxlinks c) eqn:E1.
+    - destruct (c_maxlinks c <? nt) eqn:E2; [discriminate|]. apply Z.ltb_ge in E2. right. exact E2.
+    - apply Z.ltb_ge in E1. left. exact E1.
+  Qed.
+
+  Lemma step_ok : forall d m o, good d m -> op_ok o ->
+    exists m', spec_step c hidx capped m o (snd (step flags_spec c hidx d o)) = Some m' /\
+               good (fst (step flags_spec c hidx d o)) m'.
+  Proof.
+    intros d m o [HR [Hm [Hne Hk]]] Hop.
+    destruct o as [k v o|k o|k| | | | |].
+    - (* AddChild *)
+      cbn [step op_ok] in *.
+      assert (Hgood_add : forall d', Rel d' (mput k v m) -> kind_ok d' -> good d' (mput k v m)).
+      { intros d' H1 H2. split; [exact H1|]. split; [apply mput_nodup; exact Hm|]. split; [apply mne_mput; assumption|exact H2]. }
+      assert (Hcoll : forall g, In g (map fst m) -> g <> k -> hidx g = hidx k ->
+                      has_collision hidx (k :: map fst m) = true).
+      { intros g Hg Hgk He. eapply (has_collision_intro hidx _ k g); [left; reflexivity|right; exact Hg|congruence|congruence]. }
+      inversion HR as [l m0 Hl Hs|cs tl m0 Hwf Htl Hs]; subst; unfold add_step.
+      + (* basic *)
+        destruct (c_dynamic c && to_hamt_decision c o k l) eqn:Edec.
+        * apply andb_true_iff in Edec. destruct Edec as [Hdyn Hdec].
+          pose proof (to_hamt_ok (sort_links l) [] (wf_empty hidx 0)) as Hth. rewrite count_nil in Hth.
+          specialize (Hth ltac:(cbn [walk flat_map map app]; apply sort_links_nodup; exact Hl)).
+          destruct (to_hamt hidx (sort_links l) [] 0) as [[cs tl]|e].
+          -- destruct Hth as [Hwf [Htl Hmem]]. subst tl.
+             assert (Hs' : same (walk (Node cs)) m).
+             { intros x. rewrite Hmem. cbn [walk flat_map In]. split.
+               - intros [[]|H]. apply Hs. apply sort_links_same. exact H.
+               - intros H. right. apply sort_links_same. apply Hs. exact H. }
+             pose proof (hamt_add_ok cs k v m Hwf Hm Hs') as Ha.
+             destruct (hamt_add hidx k v cs (count cs)) as [[cs' tl']|e]; cbn [res_of fst snd spec_step].
+             ++ destruct Ha as [H1 [H2 H3]]. exists (mput k v m). split; [reflexivity|]. apply Hgood_add.
+                ** apply RelH; assumption.
+                ** intros Hd. congruence.
+             ++ destruct Ha as [-> [g [Hg [Hgk He]]]]. rewrite (Hcoll g Hg Hgk He).
+                exists m. split; [reflexivity|]. split; [exact HR|]. auto.
+          -- destruct Hth as [-> Hc]. cbn [fst snd spec_step].
+             rewrite (has_collision_incl hidx _ (k :: map fst m) Hc).
+             ++ exists m. split; [reflexivity|]. split; [exact HR|]. auto.
+             ++ intros a Ha. cbn [walk flat_map map app] in Ha. right.
+                apply in_map_iff in Ha. destruct Ha as [[x y] [E H]]. cbn in E. subst x.
+                eapply in_keys_l. apply Hs. apply sort_links_same. exact H.
+        * pose proof (basic_add_ok (c_maxlinks c) l k v m Hl Hm Hs) as Hb.
+          destruct (basic_add (c_maxlinks c) k v l) as [l'|e]; cbn [res_of fst snd spec_step].
+          -- destruct Hb as [H1 H2]. exists (mput k v m). split; [reflexivity|]. apply Hgood_add; [apply RelB; assumption|].
+             intros Hd. exact (Hk Hd).
+          -- destruct Hb as [-> [Hg Hcap]]. rewrite Hg.
+             assert (Hcapped : capped = true).
+             { unfold capped. destruct (c_dynamic c) eqn:Hdyn.
+               - cbn [andb negb orb] in *. unfold to_hamt_decision in Edec.
+                 destruct (c_enabled c); [|reflexivity]. cbn [negb] in Edec. exfalso.
+                 unfold mget in Hg. rewrite <- (bget_same k l m Hl Hm Hs) in Hg. rewrite Hg in Edec.
+                 rewrite (same_length l m Hl Hm Hs) in Edec. rewrite Hcap in Edec.
+                 destruct (c_nosize c); [discriminate|]. rewrite orb_true_r in Edec. discriminate.
+               - specialize (Hk eq_refl). cbn [is_hamt] in Hk. rewrite <- Hk. reflexivity. }
+             rewrite Hcapped. cbn [andb]. rewrite Hcap.
+             exists m. split; [reflexivity|]. split; [exact HR|]. auto.
+      + (* HAMT *)
+        destruct (c_dynamic c && to_basic_decision c hidx o true k cs (count cs)) eqn:Edec.
+        * apply andb_true_iff in Edec. destruct Edec as [Hdyn Hdec].
+          apply to_basic_decision_bound in Hdec. destruct Hdec as [Hen Hbound].
+          rewrite (present_iff k cs m Hwf Hm Hs) in Hbound. rewrite (count_len cs m Hwf Hm Hs) in Hbound.
+          destruct (to_basic_ok (walk (Node cs)) [] (c_maxlinks c)) as [l [Hl1 [Hl2 Hl3]]].
+          -- cbn [map app]. apply (walk_nodup cs Hwf).
+          -- cbn [llen Nat.add]. rewrite <- (same_length _ m (walk_nodup cs Hwf) Hm Hs) in Hbound.
+             destruct (mget k m); lia.
+          -- rewrite Hl1.
+             assert (Hsl : same l m).
+             { intros x. rewrite Hl3. cbn [In]. split; [intros [[]|H]; apply Hs; exact H|intros H; right; apply Hs; exact H]. }
+             pose proof (basic_add_ok (c_maxlinks c) l k v m Hl2 Hm Hsl) as Hb.
+             destruct (basic_add (c_maxlinks c) k v l) as [l'|e]; cbn [res_of fst snd spec_step].
+             ++ destruct Hb as [H1 H2]. exists (mput k v m). split; [reflexivity|]. apply Hgood_add; [apply RelB; assumption|].
+                intros Hd. congruence.
+             ++ exfalso. destruct Hb as [_ [Hg Hcap]]. rewrite Hg in Hbound.
+                rewrite (same_length _ m (walk_nodup cs Hwf) Hm Hs) in Hbound.
+                apply andb_true_iff in Hcap. destruct Hcap as [C1 C2]. apply Z.ltb_lt in C1. apply Z.ltb_lt in C2. lia.
+        * pose proof (hamt_add_ok cs k v m Hwf Hm Hs) as Ha.
+          destruct (hamt_add hidx k v cs (count cs)) as [[cs' tl']|e]; cbn [res_of fst snd spec_step].
+          -- destruct Ha as [H1 [H2 H3]]. exists (mput k v m). split; [reflexivity|]. apply Hgood_add; [apply RelH; assumption|].
+             intros Hd. exact (Hk Hd).
+          -- destruct Ha as [-> [g [Hg [Hgk He]]]]. rewrite (Hcoll g Hg Hgk He).
+             exists m. split; [reflexivity|]. split; [exact HR|]. auto.
+    - (* RemoveChild *)
+      cbn [step].
+      assert (Hgood_rm : forall d', Rel d' (mdel k m) -> kind_ok d' -> good d' (mdel k m)).
+      { intros d' H1 H2. split; [exact H1|]. split; [apply mdel_nodup; exact Hm|]. split; [apply mne_mdel; exact Hne|exact H2]. }
+      inversion HR as [l m0 Hl Hs|cs tl m0 Hwf Htl Hs]; subst; unfold remove_step.
+      + pose proof (basic_remove_ok l k m Hl Hm Hs) as Hb.
+        destruct (basic_remove k l) as [l'|e]; cbn [res_of fst snd spec_step].
+        * destruct Hb as [H1 [H2 H3]]. destruct (mget k m); [|congruence].
+          exists (mdel k m). split; [reflexivity|]. apply Hgood_rm; [apply RelB; assumption|exact Hk].
+        * destruct Hb as [-> Hg]. rewrite Hg. exists m. split; [reflexivity|]. split; [exact HR|]. auto.
+      + destruct (c_dynamic c && to_basic_decision c hidx o false k cs (count cs)) eqn:Edec.
+        * apply andb_true_iff in Edec. destruct Edec as [Hdyn Hdec].
+          apply to_basic_decision_bound in Hdec. destruct Hdec as [Hen Hbound].
+          destruct (to_basic_ok (walk (Node cs)) [] (if 0 <? c_maxlinks c then c_maxlinks c + 1 else c_maxlinks c))
+            as [l [Hl1 [Hl2 Hl3]]].
+          -- cbn [map app]. apply (walk_nodup cs Hwf).
+          -- cbn [llen Nat.add]. unfold count in Hbound.
+             destruct (0 <? c_maxlinks c) eqn:E1; [apply Z.ltb_lt in E1|apply Z.ltb_ge in E1];
+               destruct (present hidx k cs); lia.
+          -- rewrite Hl1.
+             assert (Hsl : same l m).
+             { intros x. rewrite Hl3. cbn [In]. split; [intros [[]|H]; apply Hs; exact H|intros H; right; apply Hs; exact H]. }
+             pose proof (basic_remove_ok l k m Hl2 Hm Hsl) as Hb.
+             destruct (basic_remove k l) as [l'|e]; cbn [res_of fst snd spec_step].
+             ++ destruct Hb as [H1 [H2 H3]]. destruct (mget k m); [|congruence].
+                exists (mdel k m). split; [reflexivity|]. apply Hgood_rm; [apply RelB; assumption|]. intros Hd. congruence.
+             ++ destruct Hb as [-> Hg]. rewrite Hg. exists m. split; [reflexivity|]. split; [exact HR|]. auto.
+        * pose proof (hamt_remove_ok cs k m Hwf Hm Hs) as Ha.
+          destruct (hamt_remove hidx k cs (count cs)) as [[cs' tl']|e]; cbn [res_of fst snd spec_step].
+          -- destruct Ha as [H1 [H2 [H3 H4]]]. destruct (mget k m); [|congruence].
+             exists (mdel k m). split; [reflexivity|]. apply Hgood_rm; [apply RelH; assumption|exact Hk].
+          -- destruct Ha as [-> Hg]. rewrite Hg. exists m. split; [reflexivity|]. split; [exact HR|]. auto.
+    - (* Find *)
+      cbn [step fst snd]. exists m. split; [|split; auto].
+      inversion HR as [l m0 Hl Hs|cs tl m0 Hwf Htl Hs]; subst; unfold find_step.
+      + cbn [spec_step]. unfold mget. rewrite (bget_same k l m Hl Hm Hs). apply find_eq_spec.
+      + pose proof (find_spec hidx (hidx k) 0 k cs Hwf eq_refl) as Hf.
+        pose proof (find_not_toodeep (hidx k) 0 k cs Hwf eq_refl (root_depth k)) as Hnt.
+        destruct (find (hidx k) k cs) as [v0| |]; [| |congruence]; cbn [spec_step]; unfold mget.
+        * rewrite (bget_in k m v0 Hm (proj1 (Hs _) Hf)). cbn [option_map]. rewrite Z.eqb_refl. reflexivity.
+        * destruct (bget k m) as [w|] eqn:E; [|reflexivity]. exfalso. apply (Hf w). apply Hs. apply bget_some_in. exact E.
+    - (* Links *)
+      cbn [step fst snd spec_step]. exists m. split; [|split; auto].
+      assert (H : Permutation (entries d) m).
+      { inversion HR as [l m0 Hl Hs|cs tl m0 Hwf Htl Hs]; subst; cbn [entries].
+        - apply same_perm; [apply sort_links_nodup; exact Hl|exact Hm|].
+          intros x. rewrite (sort_links_same l x). apply Hs.
+        - apply same_perm; [apply walk_nodup; exact Hwf|exact Hm|exact Hs]. }
+      rewrite (same_entries_perm _ _ H). reflexivity.
+    - cbn [step fst snd spec_step]. exists m. split; [|split; auto].
+      assert (H : Permutation (entries d) m).
+      { inversion HR as [l m0 Hl Hs|cs tl m0 Hwf Htl Hs]; subst; cbn [entries].
+        - apply same_perm; [apply sort_links_nodup; exact Hl|exact Hm|].
+          intros x. rewrite (sort_links_same l x). apply Hs.
+        - apply same_perm; [apply walk_nodup; exact Hwf|exact Hm|exact Hs]. }
+      rewrite (same_entries_perm _ _ H). reflexivity.
+    - cbn [step fst snd spec_step]. exists m. split; [|split; auto].
+      assert (H : Permutation (entries d) m).
+      { inversion HR as [l m0 Hl Hs|cs tl m0 Hwf Htl Hs]; subst; cbn [entries].
+        - apply same_perm; [apply sort_links_nodup; exact Hl|exact Hm|].
+          intros x. rewrite (sort_links_same l x). apply Hs.
+        - apply same_perm; [apply walk_nodup; exact Hwf|exact Hm|exact Hs]. }
+      rewrite (same_entries_perm _ _ H). reflexivity.
+    - (* reload *)
+      cbn [step]. inversion HR as [l m0 Hl Hs|cs tl m0 Hwf Htl Hs]; subst; unfold reload_step.
+      + cbn [fst snd spec_step]. exists m. split; [reflexivity|]. split; [|split; [exact Hm|split; [exact Hne|exact Hk]]].
+        apply RelB; [apply sort_links_nodup; exact Hl|]. intros x. rewrite (sort_links_same l x). apply Hs.
+      + rewrite (from_to_node (c_pad c) (Node cs) EmptyString I).
+        * cbn [flags_spec f_reload_total fst snd spec_step]. exists m. split; [reflexivity|].
+          split; [apply RelH; [exact Hwf|reflexivity|exact Hs]|]. split; [exact Hm|]. split; [exact Hne|exact Hk].
+        * intros g w Hin. apply (Hne g w). apply Hs. exact Hin.
+    - (* dump *)
+      cbn [step fst snd]. exists m. split; [|split; auto].
+      inversion HR as [l m0 Hl Hs|cs tl m0 Hwf Htl Hs]; subst; cbn [spec_step]; [|reflexivity].
+      assert (H : Permutation (sort_links l) m).
+      { apply same_perm; [apply sort_links_nodup; exact Hl|exact Hm|]. intros x. rewrite (sort_links_same l x). apply Hs. }
+      rewrite (same_entries_perm _ _ H). reflexivity.
+  Qed.
+
+  Lemma run_ok : forall ops d m, good d m -> Forall op_ok ops ->
+    spec_run c hidx capped m ops (snd (run flags_spec c hidx d ops)) = true.
+  Proof.
+    induction ops as [|o ops IH]; intros d m Hg Hops; [reflexivity|].
+    inversion Hops as [|? ? Ho Hops']. subst.
+    destruct (step_ok d m o Hg Ho) as [m' [Hs Hg']].
+    cbn [run]. destruct (step flags_spec c hidx d o) as [d' b] eqn:Est. cbn [fst snd] in *.
+    destruct (run flags_spec c hidx d' ops) as [d'' bs] eqn:Er. cbn [snd spec_run]. rewrite Hs.
+    specialize (IH d' m' Hg' Hops'). rewrite Er in IH. exact IH.
+  Qed.
+
+  Lemma init_good : good (init_dir hamt0) [].
+  Proof.
+    split; [|split; [constructor|split; [intros ? ? []|]]].
+    - unfold init_dir. destruct hamt0.
+      + apply RelH; [apply wf_empty|reflexivity|intros x; reflexivity].
+      + apply RelB; [constructor|intros x; reflexivity].
+    - intros _. unfold init_dir. destruct hamt0; reflexivity.
+  Qed.
 End DirProofs.
+
+(** The model of every directory kind, under every configuration, hash function with
+    equally long non-empty index lists, size-decision oracle and history (edits,
+    lookups, the three enumerations, reloads, dumps) answers exactly as the map
+    specification demands. *)
+Theorem model_meets_spec : forall c hidx hamt0 ops,
+  (forall a b, llen (hidx a) = llen (hidx b)) -> (forall a, hidx a <> []) ->
+  Forall op_ok ops ->
+  spec_run c hidx (capped c hamt0) [] ops (snd (run flags_spec c hidx (init_dir hamt0) ops)) = true.
+Proof.
+  intros c hidx hamt0 ops Hlen Hpos Hops.
+  apply (run_ok c hidx Hlen Hpos hamt0 ops (init_dir hamt0) [] (init_good c hidx hamt0) Hops).
+Qed.
